@@ -45,13 +45,15 @@ def DSt.onWorld (s : DSt) (k : Nat) (line : String) : DSt × List String :=
     let p' := s.p.step (lineOp (s.sideOf k) k line)
     ({ s with p := p' }.setSide k st', outs)
 
-def parseCtx (ws : List String) : Option (Bool × Option Nat) :=
-  ws.foldlM (fun (acc : Bool × Option Nat) tok =>
-    if tok = "auto" then some (acc.1, none)
-    else if tok = "ctx=own" then some (false, acc.2)
-    else if tok = "ctx=shared" then some (true, acc.2)
-    else if tok.startsWith "id=" then (tok.drop 3).toString.toNat?.map (fun n => (acc.1, some n))
-    else none) (false, none)
+/-- `[auto|id=<n>] [ctx=own|shared] [threads=<n>]` → (shared, explicit id, workers of the private dispatcher) -/
+def parseCtx (ws : List String) : Option (Bool × Option Nat × Nat) :=
+  ws.foldlM (fun (acc : Bool × Option Nat × Nat) tok =>
+    if tok = "auto" then some (acc.1, none, acc.2.2)
+    else if tok = "ctx=own" then some (false, acc.2.1, acc.2.2)
+    else if tok = "ctx=shared" then some (true, acc.2.1, acc.2.2)
+    else if tok.startsWith "id=" then (tok.drop 3).toString.toNat?.map (fun n => (acc.1, some n, acc.2.2))
+    else if tok.startsWith "threads=" then (tok.drop 8).toString.toNat?.map (fun n => (acc.1, acc.2.1, n))
+    else none) (false, none, 1)
 
 def DSt.create (s : DSt) (shared : Bool) (id : Option Nat) : DSt × Nat × Nat :=
   let k := s.p.nextSlot
@@ -72,8 +74,11 @@ def step (s : DSt) (line : String) : DSt × List String :=
   | "world" :: "new" :: rest =>
     match parseCtx rest with
     | none => (s, ["bad-op"])
-    | some (shared, id) =>
+    | some (shared, id, threads) =>
+      if threads < 1 || threads > 8 then (s, ["bad-op"]) else
       let (s', k, wid) := s.create shared id
+      -- a private dispatcher of `threads` workers: one command buffer per worker plus the calling thread's
+      let s' := if shared then s' else (s'.onWorld k s!"threads {threads}").1
       (s', [s!"world {k} id={wid}"])
   | ["world", "drop", ks] =>
     match ks.toNat? with
@@ -81,7 +86,7 @@ def step (s : DSt) (line : String) : DSt × List String :=
     | none => (s, ["bad-op"])
   | "world" :: "churn" :: ns :: rest =>
     match ns.toNat?, parseCtx ("ctx=shared" :: rest) with
-    | some n, some (shared, none) => Id.run do
+    | some n, some (shared, none, _) => Id.run do
       let mut st := s
       let mut lo := 0
       let mut hi := 0
@@ -143,7 +148,17 @@ def step (s : DSt) (line : String) : DSt × List String :=
                 | _ => (s, ["bad-op"])
           | _, _ => (s, ["bad-op"])
         | _, _ => (s, ["bad-op"])
-      else if ["teardown", "worldid", "defaultctx", "threads", "storagecap"].contains w0 then (s, ["bad-op"])
+      else if w0 = "in" then
+        match rest, s.worldSt c with
+        | ks :: op :: es :: more, some cst =>
+          match ks.toNat?, cst.entity es with
+          | some k, some h =>
+            if (s.p.world? k).isNone then (s, ["bad-op"]) else
+            let raw := "raw:" ++ String.ofList (Nat.toDigits 16 h.seen.value)
+            s.onWorld k (" ".intercalate (op :: raw :: more))
+          | _, _ => (s, ["bad-op"])
+        | _, _ => (s, ["bad-op"])
+      else if ["events", "parjob", "teardown", "worldid", "defaultctx", "threads", "storagecap"].contains w0 then (s, ["bad-op"])
       else
         let (s', outs) := s.onWorld c line
         (s', if w0 = "dump" then stripL outs else outs)
